@@ -21,7 +21,7 @@ TIERS = {
     "quick": {"segments": 400, "wall": 130, "min_budget": 90},
     "thorough": {"segments": 16000, "wall": 1500, "min_budget": 600},
 }
-SEGMENT_TIMEOUT = 600
+SEGMENT_TIMEOUT = 2400   # deep jax/TF-heavy segments on a loaded machine; a real hang still ends the worker
 SAMPLE_MAXOPS = 16
 RULE = (
     "segment = seeded history of create/switch/bad_switch/drop/gc/storm/eval/infer ops over the global backend "
